@@ -194,6 +194,14 @@ def runHistory {δ : Type} (cfg : Cfg) : Mach δ → List (Query δ × Nat) → 
     let r := runHistory cfg m' rest
     (items :: r.1, r.2)
 
+/-- the same history where every query runs on a machine of its own, created fresh with the
+    database the previous (isolated) query left. -/
+def isoHistory {δ : Type} : δ → List (Query δ × Nat) → List (List Item)
+  | _, [] => []
+  | d, (g, k) :: rest =>
+    let r := runOne .repaired (Mach.fresh d) g k
+    r.1 :: isoHistory r.2.db rest
+
 /-! ### specification: the query on its own -/
 
 /-- the linear course of a depth-first search. -/
